@@ -3,7 +3,7 @@
    The machines (Model/Metrics.v) mirror where the Go code increments what; every theorem is an invariant
    over ARBITRARY event lists (all record streams, all schedules of feeder / consumer / acknowledger, all
    upstream fault scripts, all stop moments). *)
-From SV Require Import Model.Common Model.Metrics Proofs.MetricsProofs.
+From SV Require Import Model.Common Model.Metrics Model.MetricsMem Proofs.MetricsProofs Proofs.MetricsMemProofs.
 Local Open Scope Z_scope.
 
 (* ---- input ---- *)
@@ -86,6 +86,71 @@ Theorem C19_label_attribution_length_prefixed :
   In ks (keys_of evs) -> attributed (merge_key true) nout evs ks.
 Proof. exact attribution_lp_lemma. Qed.
 Print Assumptions C19_label_attribution_length_prefixed.
+
+(* ---- pipeline worker on POOLED records (Model/MetricsMem.v): strings are headers into buffers that the
+   allocator recycles; [own_events] = the records as their messages said when they were parsed ---- *)
+
+(* for every history of parses and worker steps the machine accepts - any buffer the pool hands out, any
+   interleaving of parser and worker, any number of recyclings -, any map key function, and both code variants
+   that keep COPIES (this tree: no fast path; a fast path remembering copies of the previous key values):
+   a scrape shows exactly the counter sets of the value-level worker run on the records' OWN key values *)
+Theorem C19_pooled_records_counted_by_own_values :
+  forall (mg : list bytes -> bytes) (v : mvariant), mv_copy_keys v = true -> mv_cache v <> CacheTransient ->
+  forall (evs : list m_event) (s : mstate), m_run mg v m_init evs = Some s ->
+  m_view s = p_map (p_run_mg mg 0 (own_events evs)).
+Proof. exact (fun mg v H1 H2 => mem_refines_lemma mg v (conj H1 H2)). Qed.
+Print Assumptions C19_pooled_records_counted_by_own_values.
+
+(* ... and every record the worker processed is counted exactly once (passed or dropped) in some counter set *)
+Theorem C19_pooled_records_every_record_counted :
+  forall (mg : list bytes -> bytes) (v : mvariant), mv_copy_keys v = true -> mv_cache v <> CacheTransient ->
+  forall (evs : list m_event) (s : mstate), m_run mg v m_init evs = Some s ->
+  kmap_sum g_n (m_view s) = works evs.
+Proof. exact (fun mg v H1 H2 => mem_total_lemma mg v (conj H1 H2)). Qed.
+Print Assumptions C19_pooled_records_every_record_counted.
+
+(* the property for labelled counters, on pooled records, for the code of this tree (length-prefixed map key, no
+   fast path): every metric-key tuple some processed record had when it was parsed has a counter set that carries
+   exactly that tuple as label values and counts exactly the records whose own tuple it is *)
+Theorem C19_pooled_records_label_attribution :
+  forall (evs : list m_event) (s : mstate), m_run (merge_key true) mv_tree m_init evs = Some s ->
+  forall ks, In ks (keys_of (own_events evs)) ->
+  exists kc, kmap_get (m_view s) (merge_key true ks) = Some kc /\ kc_keys kc = ks /\
+    ic_pn (kc_in kc) = psum (on (selk ks) w_pn) (own_events evs) /\
+    ic_pb (kc_in kc) = psum (on (selk ks) w_pb) (own_events evs) /\
+    ic_dn (kc_in kc) = psum (on (selk ks) w_dn) (own_events evs) /\
+    ic_db (kc_in kc) = psum (on (selk ks) w_db) (own_events evs) /\
+    forall l, lab_get (kc_lab kc) l =
+              (psum (on (selk ks) (w_ln l)) (own_events evs), psum (on (selk ks) (w_lb l)) (own_events evs)).
+Proof. exact (mem_attribution_lemma mv_tree faithful_tree). Qed.
+Print Assumptions C19_pooled_records_label_attribution.
+
+(* the theorem depends on the copies.  Variant: a fast path in SelectMetricKeySet that remembers the previous
+   record's transient strings.  Witness: "aaaa" processed and released, "bbbb" parsed into the recycled buffer:
+   the record with "bbbb" is counted under "aaaa" and no counter set carries "bbbb" *)
+Theorem C19_transient_key_cache_variant_refuted :
+  exists evs s, m_run (merge_key true) (MV true CacheTransient) m_init evs = Some s /\
+    In [ex_b] (keys_of (own_events evs)) /\
+    kmap_get (m_view s) (merge_key true [ex_b]) = None /\
+    ~ mem_attributed (m_view s) (own_events evs) [ex_a].
+Proof. exact transient_cache_refuted_lemma. Qed.
+Print Assumptions C19_transient_key_cache_variant_refuted.
+
+(* variant: the label values of a new counter set are not copied (no util.DeepCopyStrings): after the buffer is
+   recycled the counter set created for "aaaa" shows the label value "bbbb" *)
+Theorem C19_uncopied_label_values_variant_refuted :
+  exists evs s kc, m_run (merge_key true) (MV false NoCache) m_init evs = Some s /\
+    kmap_get (m_view s) (merge_key true [ex_a]) = Some kc /\ kc_keys kc = [ex_b].
+Proof. exact uncopied_keys_refuted_lemma. Qed.
+Print Assumptions C19_uncopied_label_values_variant_refuted.
+
+(* non-vacuity: histories with a recycled buffer / two buffers in flight are accepted by the faithful variants *)
+Theorem C19_pooled_records_example :
+  (exists s, m_run (merge_key true) mv_tree m_init ex_recycle = Some s /\
+             keys_of (own_events ex_recycle) = [[ex_a]; [ex_b]] /\ works ex_recycle = 2) /\
+  (exists s, m_run (merge_key true) (MV true CacheCopies) m_init ex_two_buffers = Some s /\ works ex_two_buffers = 3).
+Proof. exact mem_example_lemma. Qed.
+Print Assumptions C19_pooled_records_example.
 
 (* ---- buffer ---- *)
 
